@@ -40,10 +40,13 @@ _SCRIPT = textwrap.dedent('''
     sys.path.insert(0, %(repo)r)
     import numpy as np
     cfg = json.loads(sys.argv[1])
-    random.seed(cfg['seed']); np.random.seed(cfg['seed'])
+    if not cfg.get('seed_after_import'):
+        random.seed(cfg['seed']); np.random.seed(cfg['seed'])
     from ixai.explainer import IncrementalSage, IncrementalPFI, BatchSage
     from ixai.storage import UniformReservoirStorage, GeometricReservoirStorage, TreeStorage, BatchStorage
     from ixai.imputer import MarginalImputer, TreeImputer
+    if cfg.get('seed_after_import'):
+        random.seed(cfg['seed']); np.random.seed(cfg['seed'])
     names = ['a', 'b', 'c']
     def model(x):
         if not isinstance(x, dict):
@@ -91,8 +94,11 @@ def _configs(tier):
             cfgs.append({'explainer': explainer, 'storage': storage, 'seed': 7, 'steps': 25})
     cfgs.append({'explainer': 'sage', 'storage': 'uniform', 'strategy': 'product', 'seed': 3, 'steps': 25})
     cfgs.append({'explainer': 'pfi', 'storage': 'tree', 'use_storage': True, 'seed': 5, 'steps': 40})
+    # the generators seeded only AFTER the library was imported (import-time code must not consume or bypass them)
+    cfgs.append({'explainer': 'sage', 'storage': 'tree', 'seed': 11, 'steps': 25, 'seed_after_import': True})
+    cfgs.append({'explainer': 'pfi', 'storage': 'geometric', 'seed': 11, 'steps': 25, 'seed_after_import': True})
     if tier == 'quick':
-        cfgs = [cfgs[0], cfgs[2], cfgs[5], cfgs[7]]
+        cfgs = [cfgs[0], cfgs[2], cfgs[5], cfgs[7], cfgs[8]]
     return cfgs
 
 
@@ -117,9 +123,9 @@ def BOUNDED(tier, seed):
 
 
 def SEARCH_STATIC(x, seed):
-    if 'seed_not_none' not in x['id']:
+    if 'seed_not_none' not in x['id'] and 'import_time' not in x['id']:
         return None
-    c = {'explainer': 'pfi', 'storage': 'tree', 'use_storage': True, 'seed': 5, 'steps': 40}
+    c = {'explainer': 'pfi', 'storage': 'tree', 'use_storage': True, 'seed': 5, 'steps': 40, 'seed_after_import': 'import_time' in x['id']}
     a, b = _run(c), _run(c)
     if a != b and not a.startswith('ERROR'):
         return {'witness': {'config': c}, 'observed': {'confirmed': True, 'first': a[:300], 'second': b[:300]}}
